@@ -561,7 +561,7 @@ pub fn check_transition(prev: &[AreaView], now: &[AreaView], expect: &Plain, hea
 
 impl Monitor for C10 {
     fn total_cases(&self) -> u64 {
-        self.tier.pick(3_000, 300_000)
+        self.tier.pick(5_000, 300_000)
     }
     fn run_case(&mut self, k: u64, rng: &mut Rng, col: &mut Collector) {
         self.history(k, rng, col);
